@@ -213,6 +213,11 @@ func (vc *VC) mkCallInfo(c *ssa.CallCommon, ins ssa.Instruction, value ssa.Value
 
 // paramNames gives the names contracts may use for the i-th argument.
 func (ci *callInfo) bindArgs(env *specEnv) {
+	if ci.fn != nil {
+		env.owner = ci.fn
+	} else if ci.closure != nil {
+		env.owner = ci.closure.fn
+	}
 	var names []string
 	if ci.fn != nil && len(ci.fn.Params) > 0 {
 		for _, p := range ci.fn.Params {
@@ -1054,6 +1059,7 @@ func (vc *VC) makeClosure(ins *ssa.MakeClosure) {
 				continue
 			}
 			env := vc.newEnv(vc.st, vc.st, fc.Pkg)
+			env.owner = fn
 			for i, fv := range fn.FreeVars {
 				env.freeCells[fv.Name()] = sval{term: vc.val(ins.Bindings[i]), typ: fv.Type()}
 			}
@@ -1171,6 +1177,7 @@ func (vc *VC) closureFacts() {
 				continue
 			}
 			env := vc.newEnv(vc.st, vc.st, fc.Pkg)
+			env.owner = cr.fn
 			ok := true
 			for i, fv := range cr.fn.FreeVars {
 				ct := deref(fv.Type())
@@ -1508,6 +1515,7 @@ func (vc *VC) fnspecReturn(ins *ssa.Return) {
 					if okImpl {
 						// conditions under which f meets the spec (its own requires) must hold where it is returned
 						env := vc.newEnv(vc.st, vc.st, c.Pkg)
+						env.owner = f
 						if mc, isClo := v.(*ssa.MakeClosure); isClo {
 							for i, fv := range f.FreeVars {
 								env.freeCells[fv.Name()] = sval{term: vc.val(mc.Bindings[i]), typ: fv.Type()}
